@@ -31,6 +31,9 @@ def kind? (c : Char) : Option Kind :=
 
 def op? (n : Nat) (t : String) : Option Op :=
   match t.toList with
+  | ['F', i, k] => do
+    let i ← (String.singleton i).toNat?; let k ← (String.singleton k).toNat?
+    if i < n then pure (.failPre i k) else none
   | ['f', i, k] => do
     let i ← (String.singleton i).toNat?; let k ← kind? k
     if i < n then pure (.fail i k) else none
@@ -132,6 +135,25 @@ def opName : Op → String
   | .ping i => "p" ++ toString i
   | .reinstate i => "r" ++ toString i
   | .age i => "a" ++ toString i
+  | .failPre i k => "F" ++ toString i ++ toString k
+
+/-- scripts with scripted PreStart failures (`F`): the property text does not say what a restart that cannot
+    re-run PreStart must end in, so only its restart clause is judged on them — a member that WAS restarted
+    (PreStart ran again and it is running) must be registered and have its restart count bumped -/
+def restartedOK (b a : Obs) : Bool :=
+  (List.range b.cs.length).all fun j =>
+    match b.cs[j]?, a.cs[j]? with
+    | some bj, some aj => !(decide (aj.pre > bj.pre) && aj.alive) || (aj.reg && aj.rc == bj.rc + 1)
+    | _, _ => false
+
+def firstBadRestart : List Op → Obs → List (Obs × Res) → Nat → Option Nat
+  | [], _, _, _ => none
+  | _ :: _, _, [], k => some k
+  | op :: ops, b, (a, _) :: rest, k =>
+    let ok := match op with | .fail _ _ => restartedOK b a | _ => true
+    if ok then firstBadRestart ops a rest (k + 1) else some k
+
+def hasFailPre (ops : List Op) : Bool := ops.any fun | .failPre _ _ => true | _ => false
 
 /-- the oracle: first against what the code is known to do (anything else is a new violation),
     then against the property text (a difference there is the recorded finding C07-F1) -/
@@ -146,6 +168,11 @@ def judge (line : String) : String :=
     | some ((b0, _) :: rest) =>
       if b0 != (Family.init cs.opts cs.n).obs then "bad initial family is not n fresh running children" else
       if rest.length != cs.ops.length then s!"bad {rest.length} step results for {cs.ops.length} ops" else
+      if hasFailPre cs.ops then
+        (match firstBadRestart cs.ops b0 rest 0 with
+         | none => "ok"
+         | some k => s!"bad C07-F3 step {k} ({(cs.ops.map opName).getD k "?"}): a member restarted after a failed first attempt runs outside the actor tree and/or with a restart count that was not bumped")
+      else
       let h0 : Hists := List.replicate cs.n []
       match firstBad .code cs.opts h0 clock0 cs.ops b0 rest 0 with
       | some k => s!"bad step {k} ({(cs.ops.map opName).getD k "?"}): the observed outcome is not what the configured directive prescribes"
